@@ -93,7 +93,7 @@ func genC04Map(rt *rapid.T, tier string) any {
 		m := related(base, r, 2, 0)
 		if rapid.IntRange(0, 3).Draw(rt, "rootit") == 0 {
 			all := m.all()
-			m = RootOnBranch(m, all[1+r.Intn(len(all)-1)])
+			m = rootAtRandom(m, all, r)
 		}
 		c.Trees = append(c.Trees, m.Newick())
 		c.Reroot = append(c.Reroot, rapid.IntRange(0, 20).Draw(rt, "reroot"))
